@@ -31,6 +31,15 @@ func (w *World) storeFip(ip string) *FipInfo { return decodeFip(w.K.Get("floatin
 // ---- binding applied ------------------------------------------------------------------------------------
 
 func (w *World) oracleOnBind(p *PodInfo, m *simkube.Mutation) {
+	if w.armed("C07") && p.App != nil && p.App.Pool != "" && len(p.Ranges) > 0 {
+		w.S.Stat("c07.pooled-dp-with-ranges-bound")
+		if o := w.K.Get("pools", "kube-system", p.App.Pool); o != nil {
+			var pj poolJSON
+			_ = json.Unmarshal(o.JSON, &pj)
+			w.S.Stat("c07.pooled-dp-with-ranges-bound-in-sized-pool")
+			_ = pj
+		}
+	}
 	if len(p.IPs) == 0 {
 		// a pod that asked for a floating IP is bound with none: k requested ranges (or the implicit single one) got 0 IPs
 		if w.armed("C08", "C05", "C06") && p.App != nil {
@@ -200,7 +209,16 @@ func (w *World) oracleOnFip(m *simkube.Mutation) {
 						}
 					}
 					if fw.hadIPAfterFilter {
-						al.BindReason = "filter-time-ip-taken-back"
+						// ... and really lost it: the identity holds nothing but the IP being created now
+						others := 0
+						for _, x := range w.storeIPsOfKey(newF.Key) {
+							if x != ip {
+								others++
+							}
+						}
+						if others == 0 {
+							al.BindReason = "filter-time-ip-taken-back"
+						}
 					}
 				}
 			}
@@ -541,8 +559,10 @@ func (w *World) oracleC07(m *simkube.Mutation, ip string, oldF, newF *FipInfo) {
 		w.S.Stat("c07.prealloc-judged")
 	}
 	if unsized {
+		w.S.Stat("c07.growth-while-unsized")
 		return
 	}
+	w.S.Stat("c07.growth-judged")
 	if n := w.countUnderPrefix("pool__" + pool + "_"); n > max {
 		// circumstances that make up the finding signature: was some member of the pool allocated by an operation
 		// that started while the pool had no size (the Pool object was created while pods were between filter and bind)?
